@@ -7,7 +7,7 @@
    or the configured one.  Not proved here: termination / linear step count of the scanner on arbitrary bytes (C03 / C18 prove
    it for well-framed and truncated inputs), memory safety of the unsafe blocks, thread behaviour (C17). *)
 From Coq Require Import List NArith Bool.
-From FP Require Import Model.Base Model.Rdh Model.Alpide Model.CdpRunning Model.Scanner Model.Link Model.Collector Model.System Proofs.C04_proofs Proofs.C04_stave Proofs.C04_system.
+From FP Require Import Model.Base Model.Rdh Model.Alpide Model.CdpRunning Model.Scanner Model.Link Model.Collector Model.System Model.Views Proofs.C04_proofs Proofs.C04_stave Proofs.C04_system Proofs.C04_views.
 From FP Require Gen.Facts.
 Import ListNotations.
 Open Scope N_scope.
@@ -57,6 +57,18 @@ Theorem C04_whole_run_outcomes : forall ff c input,
   exists s shown e, run_check ff c input = R_done s shown e /\ (e = 0 \/ e = 1 \/ rc_exit c = Some e).
 Proof. exact (c04_run_check_total (conj eq_refl (conj eq_refl eq_refl))). Qed.
 
+(* the frame views: the same site, reached exactly when the view comes to a packet of layer 7 (F6: the class of the recorded
+   finding is `some packet of the batch names layer 7`, and it is not empty); any other batch ends normally or with the payload error *)
+Theorem C04_frame_view_panics_only_for_layer_7 : forall dv batch rows s, view_frames dv batch = (rows, VE_panic s) ->
+  s = SITE_view_stave_from_feeid /\ exists c, In c batch /\ 6 < layer_from_feeid (r_fee_id (c_rdh c)).
+Proof. exact c04_view_frames_panic. Qed.
+Theorem C04_frame_view_outcomes : forall dv batch, (forall c, In c batch -> layer_from_feeid (r_fee_id (c_rdh c)) <= 6) ->
+  exists rows, view_frames dv batch = (rows, VE_done) \/ exists off, view_frames dv batch = (rows, VE_payload_error off).
+Proof. exact c04_view_frames_total. Qed.
+Theorem C04_known_finding_layer_7_witness : forall dv c rest, 6 < layer_from_feeid (r_fee_id (c_rdh c)) ->
+  view_frames dv (c :: rest) = ([], VE_panic SITE_view_stave_from_feeid).
+Proof. exact c04_view_layer7_panics. Qed.
+
 Theorem C04_exit_range : forall aee r flag,
   exit_code aee r flag = 0 \/ exit_code aee r flag = 1 \/ exists n, aee = Some n /\ exit_code aee r flag = n.
 Proof. exact c04_exit_range. Qed.
@@ -73,4 +85,7 @@ Print Assumptions C04_only_invalid_layer_site_reachable.
 Print Assumptions C04_no_panic_with_valid_layers.
 Print Assumptions C04_whole_run_panics_only_for_layer_7.
 Print Assumptions C04_whole_run_outcomes.
+Print Assumptions C04_frame_view_panics_only_for_layer_7.
+Print Assumptions C04_frame_view_outcomes.
+Print Assumptions C04_known_finding_layer_7_witness.
 Print Assumptions C04_exit_range.
